@@ -157,7 +157,7 @@ Definition read_request (x : xin) : option (mreq * target) :=
       let r0 := mkq (xi_method x) (t_scheme t) host [] (xi_client_ip x ++ b ":0") tls (xi_maj x) (xi_min x)
                     (wants_close (xi_maj x) (xi_min x) h0) h3 in
       (* req.URL.String() is taken by the forwarded modifier, i.e. after fixRequestScheme chose the scheme *)
-      let urlstr := q_scheme (fix_request_scheme proxy_allow_http r0) ++ b "://" ++ host ++ ep ++ query_suffix t in
+      let urlstr := q_scheme (mitm_https (fix_request_scheme proxy_allow_http r0)) ++ b "://" ++ host ++ ep ++ query_suffix t in
       Some (mkq (xi_method x) (t_scheme t) host urlstr (xi_client_ip x ++ b ":0") tls (xi_maj x) (xi_min x)
                 (wants_close (xi_maj x) (xi_min x) h0) h3, t)
   end.
